@@ -15,7 +15,7 @@ CLAIMED = {
 
 CLAIMED["C01"] = (
     "rapid-generated route sets and requests (incl. wide sets with 13..30 siblings) + small-scope enumeration, oracle = reference matcher over the flat route list (documented priority) and a priority-free brute force for the iff; plus reference-free metamorphic relations (unrelated route, adjacent swap across ranks, other method, leading slashes)",
-    "Random valid route sets (shared segment pool, random order, 1..2 methods) and constructed/mutated request paths are matched by route.Tree.Match and served by Flame.ServeHTTP; found/not-found must equal 'some route form admits the path' (brute force over alignments) and the winner must equal the reference matcher's. Plus every ordered set of <=2 (thorough <=3) compatible routes of a 12-route pool against all 780 paths of <=4 segments over 5 values.",
+    "Random valid route sets (shared segment pool, random order, 1..2 methods) and constructed/mutated request paths are matched by route.Tree.Match and served by Flame.ServeHTTP; found/not-found must equal 'some route form admits the path' (brute force over alignments) and the winner must equal the reference matcher's. Plus every ordered set of <=2 (thorough <=3) compatible routes of a 13-route pool against all 780 paths of <=4 segments over 5 values.",
     "trusts the reference matcher internal/model/match.go (written from the statement) and Go's regexp for segment admission; only registrations the statement obliges the router to accept are used",
     "DESIGN.md section 4 C01")
 
@@ -26,7 +26,7 @@ CLAIMED["C02"] = (
     "DESIGN.md section 4 C02")
 CLAIMED["C08"] = (
     "rapid-generated registration histories with named invalidating operators, oracle = three-valued registration validity model (MUST_REJECT / MUST_ACCEPT / EITHER) + reachability of accepted routes through the reference matcher",
-    "Histories of accepted registrations followed by a candidate built by one of 16 operators named after the clauses of C08 are replayed on Flame.Route and route.AddRoute; the model's verdict must agree with 'panicked now / did not', every accepted route must serve its own instances (long and short form) through the reference matcher's winner, and no request may panic after any history, including after a rejected registration.",
+    "Histories of accepted registrations followed by a candidate built by one of 21 operators named after the clauses of C08 are replayed on Flame.Route and route.AddRoute; the model's verdict must agree with 'panicked now / did not', every accepted route must serve its own instances (long and short form) through the reference matcher's winner, and no request may panic after any history, including after a rejected registration.",
     "trusts the validity model internal/model/registrar.go (written from the clause list of C08) and regexp.Compile for 'does not compile'; shapes the statement does not classify are EITHER",
     "DESIGN.md section 4 C08")
 
@@ -41,9 +41,9 @@ CLAIMED["C09"] = (
     "trusts the reference matcher, net/http header canonicalisation and Go's regexp for header expressions",
     "DESIGN.md section 4 C09")
 CLAIMED["C10"] = (
-    "rapid-generated operation histories (register / Headers / request) replayed on Flame and on mirror route.Trees, differential oracle ServeHTTP vs Tree.Match plus the reference matcher",
-    "Histories of 3..25 operations - registrations of static, optional-static and shadowing dynamic routes, Headers() updates mirrored with SetHeaderMatcher, and requests whose paths include route text used literally, extra leading slashes and trailing slashes - are replayed; after every request the outcome of Flame.ServeHTTP (handler, parameters, not-found) must equal Tree.Match on the identically populated mirror tree and the reference matcher's answer.",
-    "the mirror is the same matcher code without the router's shortcut in front (the differential the property states); the independent reference matcher is the second opinion",
+    "rapid-generated operation histories (register / Headers / request) replayed on Flame and on mirror route.Trees, differential oracle ServeHTTP vs Tree.Match (after a registration refused half way: each request vs its twin with one more leading slash)",
+    "Histories of 3..25 operations - registrations of static, optional-static and shadowing dynamic routes, Headers() updates mirrored with SetHeaderMatcher, and requests whose paths include route text used literally, extra leading slashes and trailing slashes - are replayed; after every request the outcome of Flame.ServeHTTP (handler, parameters, not-found) must equal Tree.Match on the identically populated mirror tree.",
+    "the mirror is the same matcher code without the router's shortcut in front (the differential the property states); a difference between the tree and the independent reference matcher is only recorded as a class (it would be C01 / C09 material)",
     "DESIGN.md section 4 C10")
 CLAIMED["C12"] = (
     "rapid-generated named routes x value assignments (values with braces, other bind names, slashes, empty, absent, unknown names, withOptional spelled several ways), oracle = own single-pass substitution over the derivation; inverse direction through dispatched requests",
